@@ -204,13 +204,24 @@ class Gen:
             self.emit("m stats %d" % tid)
         elif x < 0.86 and self.cfg.kind == 0:
             # stream round trip into a second table of arbitrary previous size/contents
-            self.emit("m write %d" % tid)
+            src = tid
+            if r.random() < 0.3:
+                # an empty (or tiny) source image, read into a populated destination
+                src = 2
+                self.emit("m new 2 %d" % r.choice([0, 1, 8, 40]))
+                if r.random() < 0.3:
+                    self.emit("m insert 2 %d %d" % (self.key(universe), r.randrange(1000)))
+                self.emit("m lock 2")
+            self.emit("m write %d" % src)
+            if src == 2:
+                self.emit("m unlock 2")
             self.emit("m new 1 %d" % r.choice([0, 1, 4, 16, 64, 300]))
-            for _ in range(r.randrange(0, 6)):
+            for _ in range(r.choice([0, 0, 2, 5, 12, 40])):
                 self.emit("m insert 1 %d %d" % (self.key(universe), r.randrange(1000)))
             self.emit("m lock 1")
-            self.emit("m read 1 %d" % tid)
+            self.emit("m read 1 %d" % src)
             self.emit("m digest 1")
+            self.emit("m inv 1")
             self.emit("m iter 1")
             self.emit("m stats 1")
             for _ in range(r.randrange(0, 8)):
@@ -231,6 +242,7 @@ class Gen:
                 else:
                     self.emit("m find 1 %d" % self.key(universe))
             self.emit("m digest 1")
+            self.emit("m inv 1")
             self.emit("m stats 1")
         else:
             self.emit("m unlock %d" % tid)
